@@ -187,4 +187,15 @@ META["C19"] = dict(
         "the reference says is in force.",
    technique="TLA+ spec (SchemePush.tla + Padding.tla) + TLC enumeration of all histories, each replayed in a fresh process + TLC trace validation (two validators)",
    design_ref="DESIGN.md 3/C19")
+META["C08"] = dict(
+   text="Mux.tla's EofOk / QuiesceOk (end-of-stream only after the writer finished and after everything written before the close "
+        "was delivered; a finished flow has shown its end at quiescence) decide both halves. Receiving side: MC_Mux checks them "
+        "(plus the liveness property CloseReachesPeer under fairness and the deviation FinDropsQueued) and TLC-simulated "
+        "behaviours with FIN at every position relative to queued data and reads are replayed against real Sessions of both roles, "
+        "with the stream tables read through a cfg-guarded accessor after every quiescence point (Trace_Mux). Sending side: "
+        "proxied connections through the real SOCKS5 / HTTP front-ends, Client, server and a scripted target, closing side and "
+        "order and bytes in flight varied; Trace_Close.tla requires the opposite endpoint to have received exactly what was sent, "
+        "to observe end-of-stream, and the other direction to keep working.",
+   technique="TLA+ spec (Mux.tla close rules, liveness under fairness) + TLC MC + replayed behaviours on in-memory rigs + end-to-end close rig + TLC trace validation (two validators)",
+   design_ref="DESIGN.md 3/C08")
 NOT_YET = "check not built yet in this round (planned: DESIGN.md section 3); not claimed"
